@@ -28,7 +28,8 @@ def SPEC(tier):
         'the oracle is differential inside one build: component i of f(vec...) against the scalar overload f(x_i...) (operators: against the built-in C++ operator on the element type); '
         'what the scalar overload returns is the subject of C05/C11/C12/C14/C18, not of this check',
         'NaN operands only for operators, comparisons, isnan/isinf, abs, sign, bit casts, fmin/fmax/fclamp; signalling NaNs are not given to fmin/fmax',
-        'lowp inversesqrt is judged on positive normal floats only (the bit trick has no meaning for 0, subnormals, inf)',
+        'lowp inversesqrt is judged on positive normal floats only (the bit trick has no meaning for 0, subnormals, inf); its tolerance 2^-8 is the one of the property statement, the observed maximum is 0.448 of it (inherent to the approximation, complete sweep)',
+        'functions whose scalar overload itself forwards to the vec<1> overload (fract mod sign log2 bitCount findMSB bitfieldExtract/Insert/Reverse isMultiple nextPowerOfTwo) share all code with the vector overload: a defect in that shared code is invisible to this differential and is the business of C05/C11/C18',
         'GLM asserts are live (no NDEBUG): iround/uround see x >= 0 only, nextMultiple/prevMultiple see Multiple > 0',
     ]}
 
